@@ -117,6 +117,7 @@ type PipeSpec struct {
 	Moved     []SlotNode `json:"moved,omitempty"`     // slot really owned by Node: everybody else answers -MOVED
 	Migrating []Mig      `json:"migrating,omitempty"` // slot being migrated from Src (the owner) to Dst
 	Present   []Bin      `json:"present,omitempty"`   // keys of migrating slots that are still at the source
+	RedirDelayMs int     `json:"redirect_delay_ms,omitempty"` // redirection replies are sent this late (they can arrive after the request was completed otherwise)
 	DeadAddr  string     `json:"-"`
 }
 
@@ -156,6 +157,7 @@ func redirectLayer(f *Fixture, spec *PipeSpec, next fakecluster.Handler) fakeclu
 		}
 		return f.Cluster.Nodes[n].Addr
 	}
+	delay := time.Duration(spec.RedirDelayMs) * time.Millisecond
 	return func(req *fakecluster.Request) fakecluster.Action {
 		keys := keysOf(req.Name, req.Args)
 		if len(keys) == 0 {
@@ -168,15 +170,15 @@ func redirectLayer(f *Fixture, spec *PipeSpec, next fakecluster.Handler) fakeclu
 				if present[string(keys[0])] {
 					return next(req)
 				}
-				return fakecluster.Action{Reply: []byte(fmt.Sprintf("-ASK %d %s\r\n", slot, addr(m.Dst)))}
+				return fakecluster.Action{Reply: []byte(fmt.Sprintf("-ASK %d %s\r\n", slot, addr(m.Dst))), Delay: delay}
 			case req.Node == m.Dst && req.Asking:
 				return next(req)
 			default:
-				return fakecluster.Action{Reply: []byte(fmt.Sprintf("-MOVED %d %s\r\n", slot, addr(m.Src)))}
+				return fakecluster.Action{Reply: []byte(fmt.Sprintf("-MOVED %d %s\r\n", slot, addr(m.Src))), Delay: delay}
 			}
 		}
 		if owner, ok := moved[slot]; ok && req.Node != owner {
-			return fakecluster.Action{Reply: []byte(fmt.Sprintf("-MOVED %d %s\r\n", slot, addr(owner)))}
+			return fakecluster.Action{Reply: []byte(fmt.Sprintf("-MOVED %d %s\r\n", slot, addr(owner))), Delay: delay}
 		}
 		return next(req)
 	}
